@@ -4,7 +4,12 @@ writes -- one step per series key -- and range deletes -- one step per point --;
 ReadFrom(model, key, lo, hi, asc) of that moment; Close excludes half-applied writes and makes later operations fail; a range delete
 that Close overtakes (the Shard delete methods do not exclude Close) goes on or fails, and having failed -- never acknowledged -- it may
 have deleted any part of its range; after the trace the shard is reopened and every series must read exactly `model`).
-Binding: code -> spec.  `engine record` runs 3-6 goroutines of random writes, cursor reads, range deletes, WriteSnapshot,
+Binding, spec -> code (Close against a write in flight): TSMEngine.tla with CloseRace (MC_C39_closerace.cfg: WriteEnter ; CloseTry ;
+WriteFinish ; Reopen around earlier writes and snapshot commits) is model-checked (CloseExcludesWrite) and dumped; the maximal
+histories with a CloseTry are executed on a real tsdb.Shard with the write parked at the schedule point shard.write.before_engine
+(after its field validation, before Engine.WritePoints): Shard.Close, called meanwhile, must not return before the write has, the write
+must succeed, and the reopened shard must read exactly the model.  A Close that returns under the parked write is a VIOLATION.
+Binding, code -> spec.  `engine record` runs 3-6 goroutines of random writes, cursor reads, range deletes, WriteSnapshot,
 ScheduleFullCompaction, Backup and Close (after or concurrently with the last operations) on a real tsdb.Shard whose engine runs its
 REAL planner and background compaction loops (compactions committed inside the traces are counted: vacuity guard), logging call/ret
 lines under one mutex.  TLC (-workers 1, StateDeque, high-water mark, POSTCONDITION) accepts a trace iff some placement of the
@@ -28,6 +33,15 @@ SIZES = dict(
     quick=dict(procs=4, traces=4, ops=9, race_traces=5, race_ops=12, hammer='3s'),
     thorough=dict(procs=8, traces=50, ops=9, race_traces=24, race_ops=50, hammer='10s'),
 )
+
+
+def _common():
+    import importlib.util
+    p = os.path.join(os.path.dirname(os.path.abspath(__file__)), '_tsmengine.py')
+    spec = importlib.util.spec_from_file_location('_tsmengine', p)
+    mod = importlib.util.module_from_spec(spec)
+    spec.loader.exec_module(mod)
+    return mod
 
 
 def split_traces(path):
@@ -250,6 +264,12 @@ def run(ctx):
         with open(ctx.replay_path) as f:
             data = json.load(f)
         case = data['case']
+        if 'steps' in case:      # a close-race schedule (phase 0)
+            binary = ctx.go_build('engine')
+            res, lines = ctx.replay(binary, [case], procs=1, par=1, timeout=600)
+            ctx.absorb(res, lines)
+            ctx.rule = 'replay of one stored close-race schedule: ' + os.path.basename(ctx.replay_path)
+            return
         if case.get('mode') != 'trace':
             raise vlib.Inconclusive('only stored traces can be re-validated (races, stalls and panics are re-found by re-running the check)')
         p = ctx.tmp('stored.ndjson')
@@ -260,6 +280,29 @@ def run(ctx):
         ctx.rule = 'validation of one stored trace: ' + os.path.basename(ctx.replay_path)
         return
     binary = ctx.go_build('engine')
+    # 0. Shard.Close against a write in flight, as forced schedules: TLC enumerates TSMEngine with CloseRace (WriteEnter ; CloseTry ;
+    # WriteFinish ; Reopen around snapshots and earlier writes); each maximal history is executed on a real shard with the write
+    # parked at shard.write.before_engine: Close must not return before the write has, the write must succeed, and the reopened
+    # shard must serve it
+    T = _common()
+    cr_cfg = 'TSMEngine.MC_C39_closerace.cfg'
+    cr = ctx.tlc_must_pass('TSMEngine', cr_cfg, timeout=600, dump=True, coverage=True)
+    ctx.check_coverage(cr, ['WriteEnter', 'CloseTry', 'WriteFinish', 'CloseDoneReopen'])
+    chs, cstats = T.histories(ctx, cr.dump_path, want=150 if tier == 'quick' else 1200, budget_s=20 if tier == 'quick' else 300,
+                              exact_leaves=tier != 'quick')
+    chs = [h for h in chs if any(st['a'] == 'CloseTry' for st in h)] or chs
+    T.require_actions(cstats, ['WriteEnter', 'CloseTry', 'WriteFinish', 'Reopen'])
+    cc = T.cfg_constants(cr_cfg)
+    ccases = T.make_cases('C39', chs, T.set_size(cc['Keys']), T.set_size(cc['Times']), lambda i: [i])
+    if not any(st['a'] == 'CloseTry' for c in ccases for st in c['steps']):
+        raise vlib.Inconclusive('vacuity guard: no close-race schedule contains a CloseTry step')
+    cres, clines = ctx.replay(binary, ccases, par=1, timeout=900, case_timeout='90s')
+    ctx.absorb(cres, clines)
+    stats['close_race'] = {'generation': cstats, 'schedules_replayed': len(ccases),
+                           'schedules_in_which_close_waited': sum(1 for r in cres if 'close-waits-for-write' in
+                                                                  ((r.get('extra') or {}).get('features') or []))}
+    if not stats['close_race']['schedules_in_which_close_waited'] and not ctx.divergences:
+        raise vlib.Inconclusive('vacuity guard: in no replayed schedule was Shard.Close observed waiting for the write in flight')
     # 1. record: several recorder processes side by side
     procs = []
     for i in range(sz['procs']):
@@ -394,10 +437,12 @@ META = {
     'text': 'Concurrent workloads (writes, cursor reads, range deletes, snapshots, scheduled full compactions with the real compaction '
             'loops, backups, close) are recorded as call/ret traces from a real tsdb.Shard and validated with TLC against '
             'TraceTSMEngine.tla: some placement of each operation\'s effect between its call and ret must explain every read and the '
-            'state served after a restart; the same workload runs under the race detector; stalls (reproduced) and panics are violations.',
+            'state served after a restart; TLC-enumerated schedules of Shard.Close against a write parked before its engine write are '
+            'executed on the real shard (Close must wait, the write must succeed and survive the reopen); the same workload runs under the race detector; stalls (reproduced) and panics are violations.',
     'design_ref': '5.1',
     'note': 'Trusted: TLC, the recorder (one log mutex; results logged as read), the race detector. The specification decides '
             'serializability only; data races are observed, not modelled.',
-    'technique': 'TLA+ trace validation (TraceTSMEngine.tla over the contract layer of TSMEngine.tla) + race detector monitor',
+    'technique': 'TLA+ trace validation (TraceTSMEngine.tla over the contract layer of TSMEngine.tla) + replay of TLC close-vs-write '
+                 'schedules (TSMEngine.tla, CloseRace) on the real shard with forced schedules + race detector monitor',
     'quick_s': 150, 'thorough_s': 1700,
 }
